@@ -11,6 +11,7 @@ import Pyrealb.Model.LemmatizeWF
             `real` = the model's realization of the expression: `text`, `text\tWARNINGS` or `!Exception`;
             `derivable` = the forms the entry can take according to its tables (spec side of `expand_complete`);
             `wf` = the decidable hypotheses of the C18 theorems evaluated on this entry.
+* `wf`      same line: only `{"wf":[…]}` — the decidable hypotheses of the C18 theorems on this entry
 * `tbl-witness`  the (language, pos, table) triples on which `distinct_rows_tbl` / `conj_wf_tbl` fail.
 
 The tables are the GENERATED ones (`Gen.ConjEn/ConjFr/DeclEn/DeclFr`), i.e. what /repo holds at this run. -/
@@ -107,9 +108,20 @@ def expandOp : Handler := fun j => do
                       ("derivable", Json.arr (der.map (fun (d : Str × Str) => Json.arr #[strJson d.1, strJson d.2])).toArray),
                       ("wf", Json.arr (wf.map Json.str).toArray)])
 
+/-- the hypotheses of the theorems only (cheap: every lexicon entry of both languages on every run, quick tier too) -/
+def wfOp : Handler := fun j => do
+  let lang ← parseLang (← getStr j "lang")
+  let lemmaS ← getStr j "lemma"
+  let lemma := lemmaS.toList
+  let entry ← parseEntryList (← j.getObjVal? "entry")
+  let verb ← parseVerb lemmaS j "V"
+  let env := envOf lang
+  let wf := entryWF lang env.conj env.decl (lexOfEntry lemma entry) lemma verb entry
+  pure (Json.mkObj [("wf", Json.arr (wf.map Json.str).toArray)])
+
 def witnessOp : Handler := fun _ => do
   pure (Json.mkObj [("bad", Json.arr (tblWitnesses.map Json.str).toArray)])
 
-def ops : List (String × Handler) := [("expand", expandOp), ("tbl-witness", witnessOp)]
+def ops : List (String × Handler) := [("expand", expandOp), ("wf", wfOp), ("tbl-witness", witnessOp)]
 
 end Pyrealb.Driver.LemmatizeOps
